@@ -93,3 +93,33 @@ Definition c38_chk (x : c38_case) : bool :=
   let p := {| u_parent := parent; u_seal_id := seal_id; u_open_id := open_id; u_label := label |} in
   let want := hpke_info oids (uni_info p) in
   any_suffix want i1 && any_suffix want i2 && any_suffix want i3.
+
+(** * C37, topic keys *)
+(** message: (oids, version, topic, sender enc key id, sender sign key id, seed, plaintext, sealed bytes,
+    hash table, extract table, expand table, keyed seal log, keyed open log) *)
+Definition c37_tmsg_case := (list bytes * N * bytes * bytes * bytes * bytes * bytes * bytes * table * table * table * kaead_log * kaead_log)%type.
+Definition c37_tmsg_chk (x : c37_tmsg_case) : bool :=
+  let '(oids, ver, topic, enc_id, sign_id, seed, pt, sealed, th, tx, te, (k, n, ad, pt', ct, tag), (ko, no, ado, cto, pto, tago)) := x in
+  let v := version_bytes ver in
+  let c := {| t_version := v; t_topic := topic; t_enc_id := enc_id; t_sign_id := sign_id |} in
+  let kdf := fun (sd info : bytes) =>
+    let prk := tab tx (labeled_extract_input oids (site_domain site_topic_extract) (site_label site_topic_extract) [sd]) in
+    tab te (prk ++ labeled_expand_input oids (blen k) (site_domain site_topic_expand) (site_label site_topic_expand) [info]) in
+  let seal := fun (key n0 ad0 p0 : bytes) =>
+    if bytes_eqb key k && bytes_eqb n0 n && bytes_eqb ad0 ad && bytes_eqb p0 pt' then (ct, tag) else ([777], [777]) in
+  let open_ := fun (key n0 ad0 c0 t0 : bytes) =>
+    if bytes_eqb key ko && bytes_eqb n0 no && bytes_eqb ad0 ado && bytes_eqb c0 cto && bytes_eqb t0 tago then Some pto else None in
+  let key := tk_key bytes kdf seed v topic in
+  bytes_eqb (tk_seal_message oids (tab th) bytes seal key c n pt) sealed
+  && match tk_open_message oids (tab th) bytes open_ key c n ct tag with
+     | Some p => bytes_eqb p pt
+     | None => false
+     end.
+
+(** sealed topic key: (oids, version, topic, logged extract IKMs, AD seen by the AEAD, is_open) *)
+Definition c37_trot_case := (list bytes * N * bytes * list bytes * bytes * bool)%type.
+Definition c37_trot_chk (x : c37_trot_case) : bool :=
+  let '(oids, ver, topic, ikms, ad, is_open) := x in
+  let s := if is_open then site_topic_open_info else site_topic_seal_info in
+  let info := info_struct_input s (rot_env (version_bytes ver) topic) in
+  bytes_eqb info ad && any_suffix (hpke_info oids info) ikms.
